@@ -365,6 +365,9 @@ Notation period := (pc_period cfg).
 Lemma prog_of_pulse k : prog_of tb k = match k with O => fired_prog cfg | _ => static [] end.
 Proof. destruct k as [|[|k]]; reflexivity. Qed.
 
+Lemma prog_of_fired : prog_of tb prog_fired = fired_prog cfg.
+Proof. reflexivity. Qed.
+
 Lemma fired_prog_reqs t e l w : exists lr, pw_reqs (fst (fired_prog cfg t e l w)) = lr ++ pw_reqs w.
 Proof.
   destruct e as [n|a b]; [|exists []; reflexivity].
@@ -418,7 +421,7 @@ Proof.
   set (w := world s0) in *.
   (* the state in which the event function runs *)
   unfold pend_step, fire in *. rewrite Eh in *. cbn [e_time e_id e_proc e_prog e_elem e_rep fentry mk_entry trec] in *.
-  remember (nth k (ids s0) 0%nat) as i eqn:Ei.
+  set (i := nth k (ids s0) 0%nat) in *.
   set (s1 := emit (OHandler prog_fired T (clock (set_clock T (set_queue (remove_id i (queue s0)) s0))) (EN n) None)
                   (set_clock T (set_queue (remove_id i (queue s0)) s0))) in *.
   assert (L1 : link [n] (pw_ev w) (pw_nposted w) s1).
@@ -434,14 +437,14 @@ Proof.
       apply Hne. unfold fentry, mk_entry in *. congruence.
     - intros n' k' T' [<-|[]] Hn'. fold w in En. rewrite En in Hn'. assert (k' = k) by congruence. subst k'.
       split; [exact (proj1 (A5 n k T En (fun x => x)))|].
-      intros x Hx Ex. exfalso. apply (remove_id_gone i (queue s0) A2). rewrite <- Ex. apply in_map. exact Hx.
+      intros x Hx Ex. exfalso. apply (remove_id_gone i (queue s0) A2). apply in_map_iff. exists x. split; [exact Ex|exact Hx].
     - intros x Hx Hlx. pose proof (remove_id_incl _ _ _ Hx) as Hx0.
       destruct (A7 x Hx0 Hlx) as [n' [k' [T' [A [_ C]]]]]. exists n', k', T'. split; [exact A|]. split; [|exact C].
       intros [<-|[]]. fold w in En. rewrite En in A. assert (k' = k /\ T' = T) as [-> ->] by (split; congruence).
-      apply (remove_id_gone i (queue s0) A2). replace i with (e_id x) by (rewrite C; reflexivity). apply in_map. exact Hx. }
-  unfold run_prog in *. rewrite prog_of_pulse in *.
+      apply (remove_id_gone i (queue s0) A2). apply in_map_iff. exists x. split; [rewrite C; reflexivity|exact Hx]. }
+  unfold run_prog in *. rewrite prog_of_fired in *.
   change (world s1) with w in *.
-  destruct (fired_prog cfg T (EN n) (loci s1) w) as [w' acts] eqn:EF.
+  destruct (fired_prog cfg T (EN n) (loci s1) w) as [w' acts] eqn:EF. cbn beta iota in Hg |- *.
   destruct (fired_prog_spec cfg T n _ w w' acts EF) as [w1 [a1 [ns [acts0 [EFN [P1 [P2 [Nn ->]]]]]]]].
   set (sA := set_world w' s1) in *.
   rewrite run_actions_app in *.
@@ -484,8 +487,8 @@ Proof.
       { intros n' k' T' Hn' Hnot.
         destruct (pi_tm _ _ _ P n' k' T' Hn' (fun x => x)) as [_ Hhi].
         destruct (lk_fwd _ _ _ _ L n' k' T' Hn' (fun x => x)) as [_ Hin'].
-        pose proof (notbefore_time_le _ _ (head_min _ _ Hh _ Hin')) as Hle. rewrite Eh in Hle. cbn in Hle.
-        split; [exact Hle|]. assert (Hm : lastT w + period <= T + period) by lra. apply ub_mono in Hm. lra. }
+        pose proof (notbefore_time_le _ _ (head_min _ _ Hh _ Hin')) as Hle. cbn [e_time fentry mk_entry] in Hle.
+        split; [exact Hle|]. assert (Hm : lastT w + period <= T + period) by lra. apply ub_mono in Hm. fold w in Hhi. eapply Qle_trans; [exact Hhi|exact Hm]. }
       pose proof (tm_psteps cfg ub ub_mono period_nonneg T [n] (w, []) (w1, a1) P1 Hg1 [n] T0) as T1.
       rewrite Hh1 in T1. cbn [fst] in T1.
       pose proof (tm_psteps cfg ub ub_mono period_nonneg T ns (add_log T n w1, a1) (w', acts0) P2 Hg [] T1) as T2.
@@ -493,8 +496,8 @@ Proof.
     + rewrite F2, F1. cbn [desc]. split; [|exact (pi_sorted _ _ _ P)].
       unfold lastT in HT0. fold w. destruct (pw_ftimes w); [exact I|exact HT0].
     + rewrite F2, N2, F1, N1. cbn [length]. f_equal. exact (pi_len _ _ _ P).
-    + cbn [taps filter is_tap]. fold (taps (out sF)). rewrite Q5, O3, O2.
-      cbn [out sA set_world s1 emit taps filter is_tap set_clock set_queue]. fold (taps (out s0)).
+    + cbn [taps filter is_tap trec fentry mk_entry e_time e_proc e_prog e_elem]. fold (taps (out sF)). rewrite Q5, O3, O2.
+      cbn [run_actions fold_left]. unfold sA, s1. cbn [out set_world emit set_clock set_queue taps filter is_tap]. fold (taps (out s0)).
       rewrite (pi_taps _ _ _ P), F2, N2, F1, N1. reflexivity.
   - exists n. split; [reflexivity|]. split; cbn [world emit out clock tl]; rewrite ?HW.
     + rewrite F2, F1. reflexivity.
@@ -513,7 +516,7 @@ Proof.
       split; [|split].
       * apply Hsub. rewrite Hw1, (ask_reqs _ _ _ _ _ _ A2). right. rewrite (ask_reqs _ _ _ _ _ _ A1). left. reflexivity.
       * apply Hsub. rewrite Hw1, (ask_reqs _ _ _ _ _ _ A2). left. reflexivity.
-      * rewrite <- ev_of_look, (K2 n Nn). cbn [fst]. rewrite ev_of_look. cbn [pw_ev add_log]. rewrite <- ev_of_look. exact A3.
+      * pose proof (K2 n Nn) as K2n. cbn [fst] in K2n. rewrite <- ev_of_look, K2n. rewrite ev_of_look. cbn [pw_ev add_log]. rewrite <- ev_of_look. exact A3.
 Qed.
 
 End Run.
